@@ -387,6 +387,9 @@ RAT_GROUPS = {
     "mix23": ["2", "3", "6", "12", "18", "2/3", "3/2", "4/9", "1/6", "4", "9"],
     "indep": ["2", "3", "5", "7", "1/2", "1/3", "1/5", "-2", "-3", "10", "3/5"],
     "sign": ["-1", "2", "-2", "1/2", "3", "-1/2"],
+    # composite bases sharing several primes with proportional multiplicities (the prime-exponent system is rank deficient:
+    # a redundant constraint precedes an independent one) and non-saturated binomial ideals ({12, 18, 2, 3}, {2, -2, -1})
+    "shared": ["6", "30", "10", "1/6", "5/6", "36", "-6", "12", "18", "15", "2/3", "3/2", "10/3", "100", "1/36", "60", "2", "3", "-1"],
 }
 # quadratic fields: d -> list of (a, b) meaning a + b*sqrt(d)
 QF_GROUPS = {
@@ -435,7 +438,7 @@ def gen_direct(cs, tier, allow_alg=True, rational_share=0.6):
         group = f"qf{d}"
     else:
         d = 0
-        group = rng.choice(["pow2", "pow2", "pow3", "mix23", "indep", "sign"])
+        group = rng.choice(["pow2", "pow2", "pow3", "mix23", "indep", "sign", "shared", "shared"])
         pool_all = [[b, "0"] for b in RAT_GROUPS[group]]
         feats.append("field:Q")
     feats.append(f"bases:{group}")
@@ -568,6 +571,17 @@ def fixed_direct_cases():
         ("p10-m4-8", [g("x", ("1", 0, "-4")), g("y", ("1", 0, "8"))]),
         ("ctl-2-3-6", [g("x", ("1", 0, "2")), g("y", ("1", 0, "3")), g("z", ("1", 0, "6"))]),
         ("ctl-indep", [g("x", ("1", 0, "2")), g("y", ("1", 0, "3"))]),
+        # rank-deficient prime-exponent systems (two primes with proportional multiplicities, a third one independent)
+        ("rd-6-30", [g("x", ("1", 0, "6")), g("y", ("1", 0, "30"))]),
+        ("rd-sixth-fivesixths", [g("s", ("1", 0, "1/6"), ("-1", 0, "5/6"), ("4", 0, "1")), g("x", ("1", 0, "1/6")), g("y", ("1", 0, "5/6"))]),
+        ("rd-10-30", [g("x", ("1", 0, "10")), g("y", ("2", 0, "30"))]),
+        ("rd-m6-6", [g("x", ("1", 0, "-6")), g("y", ("1", 0, "6"))]),
+        ("rd-6-36", [g("x", ("1", 0, "6")), g("y", ("1", 0, "36"))]),
+        ("rd-2over3-3over2", [g("x", ("1", 0, "2/3")), g("y", ("1", 0, "3/2"))]),
+        ("rd-10-100", [g("x", ("1", 0, "10")), g("y", ("1", 0, "100"))]),
+        # relations that need division by an exponential (saturation of the binomial ideal)
+        ("sat-12-18-2-3", [g("a", ("1", 0, "12")), g("b", ("1", 0, "18")), g("c", ("1", 0, "2")), g("d", ("1", 0, "3"))]),
+        ("sat-2-m2-m1", [g("x", ("1", 0, "2")), g("y", ("1", 0, "-2")), g("z", ("1", 0, "-1"))]),
     ]
     for name, goals in tuples:
         out.append({"id": f"fixed-{name}", "kind": "direct", "d": 0, "goals": goals, "features": ["fixed", "field:Q", "k=%d" % len(goals)]})
@@ -1166,7 +1180,9 @@ def _t_walks(rng):
     p = rng.choice(["1/2", "1/3", "1/4", "2/3"])
     q = rng.choice(["1/2", "1/2", "1/5", "3/4"])
     goals = rng.choice([["E(x)", "E(y)", "c2(x)", "c2(y)"], ["E(x)", "E(y)", "c2(x)", "c2(y)"], ["E(x)", "E(x**2)", "E(y)"],
-                        ["E(x)", "c2(x)", "k3(x)"], ["E(x*y)", "E(x)", "E(y)"], ["k2(x)", "k2(y)", "E(x)"]])
+                        ["E(x)", "c2(x)", "k3(x)"], ["E(x*y)", "E(x)", "E(y)"], ["k2(x)", "k2(y)", "E(x)"],
+                        # central moment and cumulant of the same order >= 4 of one monomial (they differ from order 4 on)
+                        ["E(x)", "c2(x)", "c4(x)", "k4(x)"], ["c2(x)", "k4(x)", "E(x)"], ["k4(x)", "c4(x)", "c2(y)"]])
     return (f"x = 0\ny = 0\nwhile true:\n    x = x + {a} {{{p}}} x - {b}\n    y = y + {c} {{{q}}} y - {d}\nend\n", goals, ["random-walks"])
 
 
@@ -1180,7 +1196,8 @@ def _t_growth(rng):
 def _t_bern(rng):
     p = rng.choice(["1/2", "1/3", "3/4"])
     m = rng.choice([2, 3])
-    goals = rng.choice([["E(s)", "E(t)", "c2(s)", "c2(t)"], ["E(s)", "E(t)", "E(s*t)"], ["E(s)", "c2(s)", "k3(s)"], ["E(s)", "E(s**2)", "c2(t)"]])
+    goals = rng.choice([["E(s)", "E(t)", "c2(s)", "c2(t)"], ["E(s)", "E(t)", "E(s*t)"], ["E(s)", "c2(s)", "k3(s)"], ["E(s)", "E(s**2)", "c2(t)"],
+                        ["E(s)", "c3(s)", "k4(s)"], ["c4(s)", "k4(s)", "c2(s)"]])
     return (f"s = 0\nt = 0\nwhile true:\n    b = Bernoulli({p})\n    s = s + b\n    t = t + {m}*b\nend\n", goals, ["bernoulli-sums"])
 
 
@@ -1226,7 +1243,7 @@ def _t_lin(rng):
 
 
 def _t_normal(rng):
-    goals = rng.choice([["E(x)", "c2(x)", "E(y)"], ["E(x**2)", "E(y)", "E(x)"], ["E(x)", "k2(x)", "k3(x)"]])
+    goals = rng.choice([["E(x)", "c2(x)", "E(y)"], ["E(x**2)", "E(y)", "E(x)"], ["E(x)", "k2(x)", "k3(x)"], ["c2(x)", "c4(x)", "k4(x)", "E(y)"]])
     mu, var, st = rng.choice([1, 2, -1, 0]), rng.choice([1, 2, 4]), rng.choice([1, 3, -2])
     return (f"x = 0\ny = 0\nwhile true:\n    g = Normal({mu}, {var})\n    x = x + g\n    y = y + {st}\nend\n", goals, ["normal-walk"])
 
@@ -1262,6 +1279,14 @@ def gen_cli(seed_fn, count, tier):
         seen.add((text, str(goals)))
         cases.append({"id": f"cli-{tpl.__name__[3:]}-{cs}", "kind": "cli", "text": text, "goals": goals, "params": {},
                       "features": ["cli"] + ["cli:" + f for f in feats]})
+    # designed: central moment and cumulant of the same order (>= 4) and monomial side by side; they are different quantities
+    # from order 4 on, so a mix-up of the two goal kinds (names, keys, closed forms) yields relations that are false
+    for j, (text, goals) in enumerate([
+            ("z = 0\nwhile true:\n    z = z + 1 {1/3} z - 1\nend\n", ["E(z)", "c2(z)", "c3(z)", "k2(z)", "k4(z)"]),
+            ("s = 0\nwhile true:\n    b = Bernoulli(1/3)\n    s = s + b\nend\n", ["c4(s)", "k4(s)", "c2(s)"]),
+            ("x = 0\nwhile true:\n    x = x + 2 {1/4} x - 1\nend\n", ["k4(x)", "c4(x)", "E(x)"])][:count]):
+        cases.append({"id": f"cli-designed-central-vs-cumulant-{j}", "kind": "cli", "text": text, "goals": goals, "params": {},
+                      "features": ["cli", "cli:central-and-cumulant-order4"]})
     for path in sorted(glob.glob(os.path.join(REPO, "documentation", "loops", "*.prob"))):
         name = os.path.basename(path)
         if name in DOC_SKIP:
